@@ -189,6 +189,165 @@ class FragSocket:
         pass
 
 
+class EventSocket:
+    """Socket oracle with timeouts: events are byte chunks or None (recv raises socket.timeout).
+    recv(n) returns at most n bytes of the next chunk; b"" (EOF) when no events are left."""
+
+    def __init__(self, events):
+        self.events = [e if e is None else bytes(e) for e in events if e is None or len(e)]
+
+    def recv(self, n):
+        import socket
+        if not self.events:
+            return b""
+        e = self.events[0]
+        if e is None:
+            self.events.pop(0)
+            raise socket.timeout()
+        out = e[:n]
+        if len(e) <= n:
+            self.events.pop(0)
+        else:
+            self.events[0] = e[n:]
+        return out
+
+    def settimeout(self, t):
+        pass
+
+    def close(self):
+        pass
+
+
+def gen_events(rng, wire, bs):
+    """Chunk the wire and sprinkle timeouts, often in the middle of a packet's first block."""
+    events = []
+    i = 0
+    style = rng.randrange(3)
+    while i < len(wire):
+        if style == 0:
+            n = rng.choice([1, 2, 3, 4, 5, 7, bs - 1, bs, bs + 1])
+        elif style == 1:
+            n = rng.randrange(1, 2 * bs + 2)
+        else:
+            n = rng.choice([1, 3, 64, 1000])
+        events.append(wire[i:i + n])
+        i += n
+        if rng.random() < 0.6:
+            events += [None] * rng.choice([1, 1, 2])
+    if rng.random() < 0.5:
+        events = [None] * rng.randrange(1, 3) + events
+    return events
+
+
+def read_until_stop_rekey(p, limit=100000):
+    """The run loop of Transport.run: NeedRekeyException is noted and reading continues.
+    Returns (payloads, rekey notices, final code list)."""
+    from paramiko.packet import NeedRekeyException
+    got = []
+    notices = 0
+    for _ in range(limit):
+        try:
+            cmd, msg = p.read_message()
+        except NeedRekeyException:
+            notices += 1
+            continue
+        except BaseException as e:  # noqa
+            return got, notices, exc_code(e)
+        got.append(bytes([cmd]) + msg.asbytes())
+    return got, notices, [-3]
+
+
+def coq_events(events):
+    return "[" + ";".join("STimeout" if e is None else "(SData %s)" % coq(list(e)) for e in events) + "]"
+
+
+def run_toy_timeouts(ctx, rng):
+    """Honest toy stream read through a socket with timeouts while need_rekey may be pending."""
+    from paramiko.packet import Packetizer
+    cfg = gen_cfg(rng, modes=(0, 1, 1, 2, 2, 3, 3))
+    seq0 = rng.choice([0, 1, rng.randrange(2 ** 32), 2 ** 32 - 2])
+    cap = CaptureSocket()
+    s = Packetizer(cap)
+    s._initial_kex_done = True
+    s._Packetizer__sequence_number_out = seq0
+    install_out(s, cfg)
+    payloads = [gen_payload(rng, cfg["bs"], 80) for _ in range(rng.randrange(1, 6))]
+    sent_ok = []
+    with PinnedUrandom(rng):
+        for pl in payloads:
+            try:
+                s.send_message(mkmsg(pl))
+            except OverflowError:      # AEAD invocation counter exhausted: nothing more is sent
+                break
+            sent_ok.append(pl)
+    payloads = sent_ok
+    wire = b"".join(cap.sent)
+    if rng.random() < 0.15 and len(wire) > 1:
+        wire = wire[:rng.randrange(1, len(wire))]          # truncated stream: blocks at the end
+        payloads = None
+    events = gen_events(rng, wire, cfg["bs"])
+    nr = rng.random() < 0.7
+    r = Packetizer(EventSocket(events))
+    r._initial_kex_done = True
+    r._Packetizer__sequence_number_in = seq0
+    install_in(r, cfg)
+    r._Packetizer__need_rekey = nr
+    got, notices, fin = read_until_stop_rekey(r)
+    out = []
+    for g in got:
+        out += [len(g)] + list(g)
+    out += [-4, notices] + fin
+    ev_desc = ["T" if e is None else e.hex() for e in events]
+    desc = {"cfg": cfg, "seq0": seq0, "need_rekey": nr, "events": ev_desc,
+            "sent": None if payloads is None else [p.hex() for p in payloads]}
+    mname = MODE_NAMES[cfg["mode"]]
+    if payloads is not None and (got != payloads or fin != [-1]):
+        ctx.fail("timeout-rekey-loss-" + mname,
+                 "socket timeouts in the middle of a packet (re-key pending: %s) lost or corrupted the message "
+                 "stream" % nr, case=desc, expected=[p.hex() for p in payloads],
+                 observed={"delivered": [g.hex() for g in got], "rekey_notices": notices, "fin": fin})
+    ctx.count(("toy-timeout", repr(cfg), seq0, nr, ev_desc), kind="toy-timeout-%s-%s" % (mname, "rekey" if nr else "idle"))
+    case = "(%s, true, %s, %s, %s)" % (coq(seq0), coq_cfg(cfg), coq(nr), coq_events(r_events_copy(events)))
+    return case, out, desc
+
+
+def r_events_copy(events):
+    return [e for e in events if e is None or len(e)]
+
+
+def real_timeouts(ctx, rng, suite, zlib_on):
+    """Real primitives, timeouts inside packets, need_rekey raised by lowered thresholds (as in a session)."""
+    from paramiko.packet import Packetizer
+    from paramiko.transport import Transport
+    keys = real_keys(rng, suite)
+    cap = CaptureSocket()
+    s = Packetizer(cap)
+    s._initial_kex_done = True
+    real_install(s, suite, keys, True, zlib_on)
+    payloads = [bytes([rng.randrange(1, 256)]) + rng.randbytes(rng.randrange(0, 60)) for _ in range(12)]
+    for pl in payloads:
+        s.send_message(mkmsg(pl))
+    wire = b"".join(cap.sent)
+    bs = Transport._cipher_info[suite[0]]["block-size"]
+    events = gen_events(rng, wire, bs)
+    r = Packetizer(EventSocket(events))
+    r._initial_kex_done = True
+    r.REKEY_BYTES = rng.choice([1, 200, 400])       # instance attribute: decide to re-key after a few packets
+    real_install(r, suite, keys, False, zlib_on)
+    got, notices, fin = read_until_stop_rekey(r)
+    ctx.count(("real-timeout", suite, zlib_on, [None if e is None else len(e) for e in events]),
+              kind="real-timeout-" + suite_kind(suite))
+    if got != payloads or fin != [-1]:
+        ctx.fail("timeout-rekey-loss-real-" + suite_kind(suite),
+                 "socket timeouts in the middle of a packet while a re-key is pending lost or corrupted the "
+                 "message stream",
+                 case={"suite": list(suite), "zlib": zlib_on, "keys": keys, "rekey_bytes": r.REKEY_BYTES,
+                       "events": ["T" if e is None else e.hex() for e in events],
+                       "sent": [p.hex() for p in payloads]},
+                 expected={"count": len(payloads), "fin": [-1]},
+                 observed={"count": len(got), "rekey_notices": notices, "fin": fin})
+
+
 class PinnedUrandom:
     """os.urandom replaced by draws from the seeded rng; logs what each call returned."""
 
@@ -621,7 +780,9 @@ def run(ctx):
     ctx.rule = ("seeded generator (random.Random('C01-<seed>')): toy sessions of 1-3 key epochs x 1-5 messages "
                 "(payload lengths 1..4*bs+8, block boundaries, up to 160), block sizes 8/16/32, MAC sizes 0/4/6/8, "
                 "classic/ETM/AEAD/cleartext, sdctr, toy compression, seq0 near 2^32 with and without "
-                "initial_kex_done, IV counters near 2^64, random read fragmentation; real suites: every cipher x "
+                "initial_kex_done, IV counters near 2^64, random read fragmentation; socket timeouts at random "
+                "positions (mid-header included) with need_rekey set or not, run loop continuing on "
+                "NeedRekeyException; real suites: every cipher x "
                 "MAC x zlib on/off with random keys, fragmentation, key switch; a case is non-trivial when distinct")
     ctx.trusted += ["model coq/Model/C01.v is hand-written; tied to paramiko/packet.py by this differential run "
                     "(vm_compute of the model's own definitions with toy primitives, no extraction)",
@@ -634,7 +795,7 @@ def run(ctx):
     ctx.prove()
 
     # ---- 1. toy correspondence ------------------------------------------------
-    n = 1200 if ctx.thorough else 150
+    n = 1200 if ctx.thorough else 110
     cases = []
     descs = []
     for _ in range(n):
@@ -650,8 +811,24 @@ def run(ctx):
     if cases:
         ctx.sample({"toy_session": descs[0], "impl_and_model_output_prefix": cases[0][1][:60]})
 
+    # ---- 1b. timeouts inside packets, re-key pending ---------------------------------
+    cases, descs = [], []
+    for _ in range(600 if ctx.thorough else 60):
+        case, expected, desc = run_toy_timeouts(ctx, rng)
+        if len(expected) + len(case) // 3 > 6000:
+            continue
+        cases.append((case, expected))
+        descs.append(desc)
+    bad = ctx.model_mismatches("run_recv_t", "(Z * bool * tcfg * bool * list sev)", cases, shard=60)
+    for i in bad[:3]:
+        ctx.disagree("read_message under socket timeouts / pending re-key differs from the model", case=descs[i],
+                     impl=cases[i][1])
+    suites = real_suites()
+    for suite in (suites if ctx.thorough else [suites[(ctx.seed * 5 + k * 7) % len(suites)] for k in range(6)]):
+        real_timeouts(ctx, rng, suite, rng.random() < 0.3)
+
     # ---- 2. constant_time_bytes_eq ----------------------------------------------
-    pairs = cteq_cases(rng, 200)
+    pairs = cteq_cases(rng, 200 if ctx.thorough else 100)
     cc = []
     for a, b in pairs:
         v = util.constant_time_bytes_eq(a, b)
